@@ -250,7 +250,8 @@ func findSubValue(s string, sub, backup string, maxSize int) (value string) {
 			return
 		}
 		// 用backup再找一遍
-		n = strings.Index(s, backup)
+		sub = backup + ":"
+		n = strings.Index(s, sub)
 		if n == -1 {
 			return
 		}
